@@ -204,6 +204,7 @@ fn key_of(whr: &str, nodes: &[Node]) -> String {
 }
 
 pub struct CaseIn<'a> { pub docs: &'a [MDoc], pub nodes: &'a [Node], pub q: Q }
+fn c_in<'a>(docs: &'a [MDoc], nodes: &'a [Node], q: Q) -> CaseIn<'a> { CaseIn { docs, nodes, q } }
 
 fn case_json(c: &CaseIn, parts: &[Vec<usize>], what: &str) -> Value {
     json!({"kind": what, "docs": c.docs, "nodes": c.nodes, "query": c.q, "parts": parts,
@@ -531,6 +532,36 @@ pub fn check_request(ctx: &mut Ctx, rng: &mut Rng, corpus: &Corpus, nodes: &[Nod
         let mine = srs_to_lean(&srs, &ranks);
         if m != mine {
             ctx.report.violation("model", "C14:lean-evalAgg-differs-from-harness-evaluator", format!("lean {} vs harness {}", &m[..m.len().min(300)], &mine[..mine.len().min(300)]), case_json(&c, &[matching_ids.clone()], "spec"));
+        }
+    }
+
+    // model: the Lean extended_stats accumulator (Welford + Chan over exact rationals, sigma carried
+    // in the fruit) on the values of every segment = the exact count / Σv / Σv² / M2 and the request's sigma
+    for (n, sr) in nodes.iter().zip(srs.iter()) {
+        if let (Agg::Metric { kind: MK::ExtStats, field, missing, .. }, SR::Metric { count, sum, sumsq, .. }) = (&n.agg, sr) {
+            if field.is_str() { continue; }
+            let parts = &corpus.segs[corpus.segs.len() - 1].0;
+            let enc: Vec<String> = parts.iter().map(|p| {
+                let vs: Vec<String> = p.iter().filter(|&&i| q.matches(&corpus.docs[i])).flat_map(|&i| super::spec::metric_vals(*field, *missing, &corpus.docs[i])).map(|v| v.to_string()).collect();
+                if vs.is_empty() { "-".to_string() } else { vs.join(",") }
+            }).collect();
+            let s4 = n.opt.sigma4.unwrap_or(8);
+            let m = ctx.model.ask(&format!("C14 extstats {s4} {}", enc.join("|")));
+            let frac = |num: i128, den: i128| -> String {
+                fn gcd(a: i128, b: i128) -> i128 { if b == 0 { a.abs() } else { gcd(b, a % b) } }
+                let g = gcd(num, den).max(1);
+                let (mut a, mut b) = (num / g, den / g);
+                if b < 0 { a = -a; b = -b; }
+                if b == 1 { a.to_string() } else { format!("{a}/{b}") }
+            };
+            let c = *count as i128;
+            let m2 = if c == 0 { "0".to_string() } else { frac(c * *sumsq - *sum * *sum, c) };
+            let sigma = if c == 0 { "2".to_string() } else { frac(s4 as i128, 4) };
+            let mine = format!("{count} {sum} {sumsq} {m2} {sigma}");
+            ctx.report.count("model:extstats-accumulator-compared");
+            if m != mine {
+                ctx.report.violation("model", "C14:lean-extstats-accumulator-differs", format!("lean {m} vs exact {mine}"), case_json(&c_in(&corpus.docs, nodes, q), parts, "final"));
+            }
         }
     }
 
@@ -999,6 +1030,7 @@ pub fn run(ctx: &mut Ctx) {
         "Lean merge model (collectSeg / mergeFruits / finalize) = real keys, counts, sum_other_doc_count, doc_count_error_upper_bound".into(),
         "final result identical for every segmentation, for separate indexes merged in random schedules and through postcard".into(),
         "bucket / memory limits: Err or the complete result; Lean guard model agrees".into(),
+        "Lean extended_stats accumulator (Welford + Chan over Rat, sigma in the fruit) = exact count, sum, sum of squares, M2 and the request's sigma (the real f64 result is compared with the same exact values)".into(),
     ];
     std::panic::set_hook(Box::new(|info| {
         if let Ok(mut s) = LAST_PANIC.lock() { *s = info.to_string().chars().take(300).collect(); }
